@@ -286,6 +286,29 @@ func c06roundtripCase(c *vf.Ctx, i int) {
 				continue
 			}
 			checkWIF("DecodeWIF", d)
+			// multi-step: the caller wipes the key it was handed (wallets zero
+			// key material after use) and decodes the same string again: the
+			// string still decodes to the same key, flag and network
+			var d2 *bchutil.WIF
+			if c.Call("DecodeWIF", func() string { return in() + " string=" + want + " (second decode after wiping the first result)" }, func() {
+				if d.PrivKey != nil && d.PrivKey.D != nil {
+					d.PrivKey.D.SetInt64(0)
+					if d.PrivKey.PublicKey.X != nil && d.PrivKey.PublicKey.Y != nil {
+						d.PrivKey.PublicKey.X.SetInt64(0)
+						d.PrivKey.PublicKey.Y.SetInt64(0)
+					}
+				}
+				d.CompressPubKey = !d.CompressPubKey
+				d2, err = bchutil.DecodeWIF(want)
+			}) {
+				if err != nil || d2 == nil {
+					c.Evals(1)
+					c.Failf("DecodeWIF/rejects-valid", "%s: second DecodeWIF(%s) failed: %v", in(), c06show(want), err)
+					continue
+				}
+				c.Inc("decodes_repeated_after_wiping_first_result")
+				checkWIF("DecodeWIF-again", d2)
+			}
 			if c.WantSample() && net.Name == "mainnet" {
 				c.Sample(map[string]string{"scalar": hx(kb), "net": net.Name, "compressed": fmt.Sprint(compressed), "wif": want, "pubkey": hx(wantPub)})
 			}
